@@ -624,7 +624,7 @@ impl Check for C06 {
     }
     fn scenarios(&self, tier: Tier) -> u64 {
         match tier {
-            Tier::Quick => 400,
+            Tier::Quick => 1000,
             Tier::Thorough => 12000,
         }
     }
